@@ -7,7 +7,7 @@ from itertools import permutations
 from typing import Iterable, Optional
 
 import networkx as nx
-from clingo import Number
+from clingo import Number, SymbolType
 from clingo.ast import AST, AggregateFunction, ASTType, Function, Sign, SymbolicTerm, Variable
 
 from ngo.dependency import DomainPredicates, RuleDependency
@@ -129,6 +129,19 @@ class InlineTranslator:
             new_elements.append(elem.update(terms=new_terms, condition=transformed + rest_condition))
         return new_elements
 
+    @staticmethod
+    def _positive_weights(agg: AST) -> bool:
+        """true if all weights of the aggregate are positive numbers"""
+        for elem in agg.elements:
+            if not (
+                elem.terms
+                and elem.terms[0].ast_type == ASTType.SymbolicTerm
+                and elem.terms[0].symbol.type == SymbolType.Number
+                and elem.terms[0].symbol.number > 0
+            ):
+                return False
+        return True
+
     def inline_body_aggregate(self, rule: AST, atom: AST, unique_vars: UniqueVariables) -> AST:
         """inline rule into this body aggregate atom"""
         # pylint: disable=too-many-branches
@@ -161,6 +174,16 @@ class InlineTranslator:
             if agg.function == AggregateFunction.Sum:
                 result_function = AggregateFunction.Sum
             if atom.function not in good[agg.function]:
+                return atom
+            # #sum+ ignores negative weights: a #sum can not be unfolded into it, and it can only be
+            # unfolded into a #sum if all its weights are positive numbers
+            if agg.function == AggregateFunction.Sum and atom.function == AggregateFunction.SumPlus:
+                return atom
+            if (
+                agg.function == AggregateFunction.SumPlus
+                and atom.function == AggregateFunction.Sum
+                and not self._positive_weights(agg)
+            ):
                 return atom
             agga = AggAnalytics(agg)
             # result is actually used in head
@@ -225,6 +248,8 @@ class InlineTranslator:
 
         if agg.function not in (AggregateFunction.Count, AggregateFunction.Sum, AggregateFunction.SumPlus):
             return [stm]
+        if agg.function == AggregateFunction.SumPlus and not self._positive_weights(agg):
+            return [stm]  # an objective counts negative weights, #sum+ ignores them
         agga = AggAnalytics(agg)
         # only one equality
         if len(agga.equal_variable_bound) != 1 or agga.bounds:
